@@ -107,6 +107,17 @@ func getMapParam(m map[string]interface{}, prop string, required bool) (map[stri
 	}
 }
 
+// jsonString renders the string as a JSON string (with its quotes):
+// what we paste into a JSON answer is data (an id, the text of an
+// error), and it can contain quotes, backslashes and newlines.
+func jsonString(s string) string {
+	bs, err := json.Marshal(s)
+	if err != nil {
+		return `""`
+	}
+	return string(bs)
+}
+
 func getBoolParam(m map[string]interface{}, prop string, required bool) (bool, bool, error) {
 	v, have := m[prop]
 	if !have {
@@ -540,9 +551,9 @@ func (s *Service) ProcessRequest(ctx *core.Context, m map[string]interface{}, ou
 			state := impl.State(ctx)
 			js, err := json.Marshal(&state)
 			if err != nil {
-				acc = fmt.Sprintf(`{"type":"%T","error":"%s"}`,
+				acc = fmt.Sprintf(`{"type":"%T","error":%s}`,
 					storage,
-					err.Error())
+					jsonString(err.Error()))
 			} else {
 				acc = fmt.Sprintf(`{"type":"%T","state":%s}`,
 					storage,
@@ -608,7 +619,7 @@ func (s *Service) ProcessRequest(ctx *core.Context, m map[string]interface{}, ou
 				case map[string]interface{}:
 					_, err = s.ProcessRequest(ctx, m, out)
 					if err != nil {
-						problem := fmt.Sprintf(`{"error":"%s"}`, err.Error())
+						problem := fmt.Sprintf(`{"error":%s}`, jsonString(err.Error()))
 						_, err = out.Write([]byte(problem))
 					}
 				default:
@@ -783,7 +794,7 @@ func (s *Service) ProcessRequest(ctx *core.Context, m map[string]interface{}, ou
 			return nil, err
 		}
 
-		resp := fmt.Sprintf(`{"lastUpdated":"%s","source":"memory"}`, updated)
+		resp := fmt.Sprintf(`{"lastUpdated":%s,"source":"memory"}`, jsonString(updated))
 		if _, err = out.Write([]byte(resp)); err != nil {
 			core.Log(core.INFO, ctx, "/api/loc/admin/updatedmem", "warning", err)
 		}
@@ -969,7 +980,7 @@ func (s *Service) ProcessRequest(ctx *core.Context, m map[string]interface{}, ou
 		if err != nil {
 			return nil, err
 		}
-		bs := []byte(fmt.Sprintf(`{"fact":%s,"id":"%s"}`, js, id))
+		bs := []byte(fmt.Sprintf(`{"fact":%s,"id":%s}`, js, jsonString(id)))
 
 		if _, err = out.Write(bs); err != nil {
 			core.Log(core.ERROR, ctx, "/api/loc/facts/get", "warning", err)
@@ -1006,7 +1017,12 @@ func (s *Service) ProcessRequest(ctx *core.Context, m map[string]interface{}, ou
 			return nil, err
 		}
 
-		_, take := m["take"]
+		// The value, not the mere presence: "take":false takes
+		// nothing.
+		take, _, err := getBoolParam(m, "take", false)
+		if err != nil {
+			return nil, err
+		}
 		if take {
 			// Warning: Not (yet) atomic!
 			for _, found := range sr.Found {
